@@ -305,6 +305,12 @@ var stateDump map[string]bool
 // wantStacks: dump goroutine stacks of stuck executions (replay mode only; expensive)
 var wantStacks bool
 
+var dbgRounds, dbgAux int
+
+var dbgBusy = os.Getenv("VH_DBG") != ""
+
+var leakDump = os.Getenv("VH_LEAKDUMP") != ""
+
 // RunExecution runs the scenario under the given choice prefix (choice 0 afterwards).
 func RunExecution(t *testing.T, sc *Scenario, prefix []int) (w *World) {
 	w = &World{sc: sc, byWrapper: map[*command.CmdWrapper]*FProc{}, launches: map[string]int{}, auxCalls: map[string]int{},
@@ -453,6 +459,13 @@ func (w *World) body(prefix []int) {
 	w.Final = w.TakeSnapshot()
 	w.cleanup()
 	w.drain()
+	if leakDump {
+		synctest.Wait()
+		if st := bubbleStacksAll(); st != "" {
+			fmt.Fprintf(os.Stderr, "LEAKDUMP outcome=%s\n%s\n", w.Outcome, st)
+			leakDump = false
+		}
+	}
 }
 
 func (w *World) apiThread(ti int, calls []APICall) {
@@ -464,6 +477,12 @@ func (w *World) apiThread(ti int, calls []APICall) {
 		}
 		vrt.Point(op)
 		w.mu.Lock()
+		if w.cleaning {
+			// the observed part of the execution is over: do not issue further requests
+			w.apiLeft--
+			w.mu.Unlock()
+			return
+		}
 		t0 := w.now()
 		w.addEvent(Event{Kind: "api-call", Proc: c.Name, Inst: ti, Data: c.String(), Code: c.N, Alive: w.aliveKeysLocked()})
 		w.mu.Unlock()
@@ -751,11 +770,18 @@ func (w *World) cleanup() {
 	if w.Outcome == "deadlock" {
 		return
 	}
-	go func() {
-		vrt.Yield("cleanup")
-		_ = w.Runner.ShutDownProject()
-	}()
-	w.runDefault(3000)
+	// requests that were in flight at the end of the observed part may still start
+	// processes: shut down until nothing is alive any more
+	for i := 0; i < 4; i++ {
+		go func() {
+			vrt.Yield("cleanup")
+			_ = w.Runner.ShutDownProject()
+		}()
+		w.runDefault(1500)
+		if !w.anyAlive() {
+			break
+		}
+	}
 }
 
 // runDefault grants enabled threads (lowest id first), fires pending
@@ -765,9 +791,14 @@ func (w *World) runDefault(maxRounds int) {
 	idle := 0
 	for round := 0; round < maxRounds && idle < 3; round++ {
 		synctest.Wait()
+		dbgRounds++
 		moved := false
 		for _, t := range s.Collect() {
 			if t.IsEnabled() {
+				if dbgBusy && round == 1000 {
+					fmt.Fprintf(os.Stderr, "LEAKDUMP busy drain: outcome=%s granting %s %s:%s\n%s\n", w.Outcome, t.Key, t.Pending().Kind, t.Pending().Tag, strings.Join(traceStrings(w), "\n"))
+					dbgBusy = false
+				}
 				s.Grant(t)
 				moved = true
 				break
@@ -782,7 +813,7 @@ func (w *World) runDefault(maxRounds int) {
 			idle = 0
 			continue
 		}
-		time.Sleep(time.Hour)
+		time.Sleep(45 * time.Second)
 		idle++
 	}
 }
@@ -885,4 +916,21 @@ func (w *World) preEndT() time.Duration {
 		}
 	}
 	return 1 << 62
+}
+
+// bubbleStacksAll returns the stacks of all goroutines of the current bubble except the caller.
+func bubbleStacksAll() string {
+	buf := make([]byte, 1<<20)
+	n := runtime.Stack(buf, true)
+	var out []string
+	for i, g := range strings.Split(string(buf[:n]), "\n\n") {
+		if i == 0 || !strings.Contains(g, "synctest bubble") {
+			continue
+		}
+		if strings.Contains(g, "[running") {
+			continue
+		}
+		out = append(out, g)
+	}
+	return strings.Join(out, "\n\n")
 }
